@@ -31,7 +31,7 @@ Proof.
   pose proof (transpose2 _ _ _ _ _ (getitem_ssii _ _ _ _ _ _ _ off off HW Hoff Hoff)) as H2.
   pose proof (transpose4 _ _ _ _ _ _ _ (binop_42 _ _ _ f_sub _ _ _ _ _ _ _ _ H1 H2)) as H3.
   cbv beta in H3.
-  pose proof (map4 _ _ (f_map (ng sc)) _ _ _ _ _ _ H3) as H4. cbv beta in H4.
+  pose proof (map_4 _ _ (f_map (ng sc)) _ _ _ _ _ _ H3) as H4. cbv beta in H4.
   pose proof (binop_24 _ _ _ f_mul _ _ _ _ _ _ _ _ HG H4) as H5. cbv beta in H5.
   pose proof (binop_44 _ _ _ f_mul _ _ _ _ _ _ _ _ HW H5) as H6. cbv beta in H6.
   pose proof (binop_22 _ _ _ f_div _ _ _ _ _ _ (reduce_23 _ _ nansum_list _ _ _ _ _ _ H6)
@@ -52,11 +52,12 @@ Definition oq_eq (a b : oq) : Prop :=
 Definition somes_l (l : list oq) : list Q :=
   flat_map (fun o : oq => match o with Some q => [q] | None => [] end) l.
 
-Lemma nansum_list_somes : forall l, nansum_list l = Some (Spec.Filters.sumq (somes_l l)).
+Lemma nansum_q_somes : forall l, (nansum_q l == Spec.Filters.sumq (somes_l l))%Q.
 Proof.
-  intros l. unfold nansum_list. f_equal. induction l as [|[x|] l IH]; cbn [fold_right somes_l flat_map app]; [reflexivity| |].
-  - fold (somes_l l). cbn [Spec.Filters.sumq fold_right]. f_equal. exact IH.
-  - fold (somes_l l). exact IH.
+  induction l as [|[x|] l IH]; cbn [nansum_q fold_right somes_l flat_map app]; [reflexivity| |].
+  - fold (nansum_q l). fold (somes_l l). cbn [Spec.Filters.sumq fold_right]. fold (Spec.Filters.sumq (somes_l l)).
+    change (q_add x (nansum_q l)) with (Filters.qadd x (nansum_q l)). rewrite qadd_correct, IH. reflexivity.
+  - fold (nansum_q l). fold (somes_l l). exact IH.
 Qed.
 
 Lemma somes_win_list : forall c d (h : Z -> Z -> oq),
@@ -106,6 +107,14 @@ Proof.
   rewrite IH. ring.
 Qed.
 
+Lemma flat_map_none : forall w (g : Z -> Z -> oq), (forall a b, g a b = None) ->
+  flat_map (fun a => flat_map (fun b => match g a b with Some x => [x] | None => [] end) (zrange w)) (zrange w) = [].
+Proof.
+  intros w g Hg. generalize (zrange w) at 1 as L2. intros L2.
+  induction (zrange w) as [|a L IH]; [reflexivity|]. cbn [flat_map]. rewrite IH, app_nil_r. clear IH.
+  induction L2 as [|b L2 IH2]; [reflexivity|]. cbn [flat_map]. rewrite Hg. exact IH2.
+Qed.
+
 (* window (i, j) of [data], spatial table [sk], range kernel [rk], centre index [off] *)
 Theorem bil_formula_model : forall sk rk (data : Filters.map2) w off i j,
   let F := bil_formula rk (fun a b => data (i + a) (j + b)) (fun a b => Some (sk a b)) w off in
@@ -117,7 +126,10 @@ Theorem bil_formula_model : forall sk rk (data : Filters.map2) w off i j,
       else exists x, F = Some x /\ (x == wmean terms)%Q
   end.
 Proof.
-  intros sk rk data w off i j F. unfold F, bil_formula. rewrite !nansum_list_somes, !somes_win_list.
+  intros sk rk data w off i j F. unfold F, bil_formula, nansum_list.
+  set (NUM := win_list w w _). set (DEN := win_list w w _).
+  pose proof (nansum_q_somes NUM) as HN. pose proof (nansum_q_somes DEN) as HD. unfold NUM in HN at 2. unfold DEN in HD at 2.
+  rewrite somes_win_list in HN, HD.
   destruct (data (i + off) (j + off)) as [cv|] eqn:Ec.
   - cbv zeta.
     assert (Hden : flat_map (fun a => flat_map (fun b =>
@@ -133,16 +145,15 @@ Proof.
                    = map (fun p : Q * Q => (snd p * fst p)%Q) (bil_terms sk rk data w i j cv)).
     { rewrite map_bil_terms. apply (flat_map_ext2 Z). intros a b. unfold bil_weight. rewrite Ec.
       destruct (data (i + a) (j + b)); reflexivity. }
-    rewrite Hden, Hnum. unfold f_div.
-    destruct (Qeq_bool (Spec.Filters.sumq (map fst (bil_terms sk rk data w i j cv))) 0) eqn:E0; [reflexivity|].
-    eexists. split; [reflexivity|]. unfold wmean. rewrite !qsum_sumq, sumq_swap. reflexivity.
-  - assert (H0 : forall (g : Z -> Z -> oq), (forall a b, g a b = None) ->
-                 flat_map (fun a => flat_map (fun b => match g a b with Some x => [x] | None => [] end) (zrange w)) (zrange w) = []).
-    { intros g Hg. generalize (zrange w) at 1 as L2. intros L2.
-      induction (zrange w) as [|a L IH]; [reflexivity|]. cbn [flat_map]. rewrite IH, app_nil_r. clear IH.
-      induction L2 as [|b L2 IH2]; [reflexivity|]. cbn [flat_map]. rewrite Hg. exact IH2. }
-    rewrite !H0.
-    + reflexivity.
+    rewrite Hden in HD. rewrite Hnum in HN. unfold f_div.
+    destruct (Qeq_bool (Spec.Filters.sumq (map fst (bil_terms sk rk data w i j cv))) 0) eqn:E0.
+    + apply Qeq_bool_iff in E0. rewrite E0 in HD. apply Qeq_bool_iff in HD. rewrite HD. reflexivity.
+    + destruct (Qeq_bool (nansum_q DEN) 0) eqn:E1.
+      * apply Qeq_bool_iff in E1. rewrite E1 in HD. symmetry in HD. apply Qeq_bool_iff in HD. congruence.
+      * eexists. split; [reflexivity|]. unfold wmean. rewrite !qsum_sumq, <- sumq_swap, HN, HD. reflexivity.
+  - pose proof (flat_map_none w) as H0.
+    rewrite H0 in HN, HD.
+    + cbn [Spec.Filters.sumq fold_right] in HD. apply Qeq_bool_iff in HD. unfold f_div. rewrite HD. reflexivity.
     + intros a b. unfold bil_weight. rewrite Ec. destruct (data (i + a) (j + b)); reflexivity.
     + intros a b. unfold bil_weight. rewrite Ec. destruct (data (i + a) (j + b)); reflexivity.
 Qed.
@@ -242,7 +253,7 @@ Proof.
   apply orb_false_iff in Esmall. destruct Esmall as [Ey Ex]. apply Z.ltb_ge in Ey, Ex.
   pose proof (sliding_window_4 _ D _ _ _ w w HD ltac:(lia) ltac:(lia)) as HW.
   pose proof (skel_block_loop_is _ sk (fun X => np_nanmedian_23 X) _ _ _ _ _ _ _ _ _ Hok HW HD Hw ltac:(lia) ltac:(lia)) as HL.
-  pose proof (setitem_mask_2 _ _ _ None _ _ _ _ HL (map2 _ _ o_none _ _ _ _ HD)) as HR.
+  pose proof (setitem_mask_2 _ _ _ None _ _ _ _ HL (map_2 _ _ o_none _ _ _ _ HD)) as HR.
   eapply is2_ext; [exact HR|]. intros r c Hr Hc. cbv beta.
   destruct (SkelFiltersP.filter_loop_params _ sk Hok) as (HB & _).
   rewrite loop2_spec by lia.
@@ -266,7 +277,7 @@ Lemma masked_is : forall ds ny nx disp mask,
       ny nx (masked_data Constants.msk_pixel_invalid disp mask).
 Proof.
   intros ds ny nx disp mask Hd Hm. unfold np_copy, np_where, np_and_ne0.
-  eapply is2_ext; [apply (setitem_mask_2 _ _ _ None _ _ _ _ Hd (map2 _ _ _ _ _ _ _ Hm))|].
+  eapply is2_ext; [apply (setitem_mask_2 _ _ _ None _ _ _ _ Hd (map_2 _ _ _ _ _ _ _ Hm))|].
   intros; reflexivity.
 Qed.
 
@@ -280,7 +291,7 @@ Proof.
   intros h fs ds ny nx disp mask M Hd Hm Hh. unfold g_median_filter_disparity. cbv zeta.
   split; [reflexivity|]. split; [reflexivity|]. cbn [ds_disp ds_set_disp].
   pose proof (masked_is ds ny nx disp mask Hd Hm) as Hmd.
-  pose proof (setitem_mask_from_2 _ _ _ _ _ _ _ _ _ Hd (map2 _ _ o_some _ _ _ _ Hmd) (Hh _ _ Hmd)) as HR.
+  pose proof (setitem_mask_from_2 _ _ _ _ _ _ _ _ _ Hd (map_2 _ _ o_some _ _ _ _ Hmd) (Hh _ _ Hmd)) as HR.
   eapply is2_ext; [exact HR|]. intros r c Hr Hc. cbv beta. unfold writeback. cbv zeta.
   destruct (masked_data Constants.msk_pixel_invalid disp mask r c); reflexivity.
 Qed.
@@ -295,7 +306,7 @@ Proof.
   intros h ss sc ds ny nx disp mask M Hd Hm Hh. unfold g_bilateral_filter_disparity. cbv zeta.
   split; [reflexivity|]. split; [reflexivity|]. cbn [ds_disp ds_set_disp].
   pose proof (masked_is ds ny nx disp mask Hd Hm) as Hmd.
-  pose proof (setitem_mask_from_2 _ _ _ _ _ _ _ _ _ Hd (map2 _ _ o_some _ _ _ _ Hmd) (Hh _ _ Hmd)) as HR.
+  pose proof (setitem_mask_from_2 _ _ _ _ _ _ _ _ _ Hd (map_2 _ _ o_some _ _ _ _ Hmd) (Hh _ _ Hmd)) as HR.
   eapply is2_ext; [exact HR|]. intros r c Hr Hc. cbv beta. unfold writeback. cbv zeta.
   destruct (masked_data Constants.msk_pixel_invalid disp mask r c); reflexivity.
 Qed.
@@ -356,7 +367,7 @@ Proof.
   pose proof (gauss_spatial_kernel_is ngs win ss ltac:(lia)) as HG.
   pose proof (skel_block_loop_is _ sk (fun X => g_bilateral_kernel ng X (g_gauss_spatial_kernel ngs win ss) sc lo)
                 _ _ _ _ _ _ _ _ _ Hok HW HD ltac:(lia) ltac:(lia) ltac:(lia)) as HL.
-  pose proof (setitem_mask_2 _ _ _ None _ _ _ _ HL (map2 _ _ o_none _ _ _ _ HD)) as HR.
+  pose proof (setitem_mask_2 _ _ _ None _ _ _ _ HL (map_2 _ _ o_none _ _ _ _ HD)) as HR.
   eapply is2_ext; [exact HR|]. intros r c Hr Hc. cbv beta. unfold gen_bil_px. cbv zeta. fold win. fold lo.
   destruct (data r c) as [cv|] eqn:Ed; cbn [o_none]; [|reflexivity].
   unfold fits_b.
